@@ -135,7 +135,12 @@ boost::optional<H5Group> BlockHDF5::findEntityGroup(const nix::Identity &ident) 
 
 std::string BlockHDF5::resolveEntityId(const nix::Identity &ident) const {
     if (!ident.id().empty()) {
-        return ident.id();
+        // a name that merely looks like a UUID ends up in the id slot of the
+        // Identity; only trust it as an id if no entity is named that way
+        boost::optional<H5Group> p = groupForObjectType(ident.type());
+        if (!p || !p->hasObject(ident.id())) {
+            return ident.id();
+        }
     }
 
     boost::optional<H5Group> g = findEntityGroup(ident);
